@@ -18,6 +18,7 @@ import SpsdkVerif.Proofs.Crypto
 import SpsdkVerif.Proofs.SymWrappers
 import SpsdkVerif.Proofs.ExecLaws
 import SpsdkVerif.Proofs.Crc
+import SpsdkVerif.Crypto.Break
 
 namespace SpsdkVerif.C09
 open SpsdkVerif SpsdkVerif.Crypto SpsdkVerif.SymWrappers SpsdkVerif.Generated
@@ -547,7 +548,8 @@ theorem hkdfW_spec (h : CryptoLaws c) (salt ikm info : Bytes) (len : Nat) :
   have hs : hkdfAlg.size = 32 := by decide
   constructor
   · intro hl
-    refine ⟨_, by simp [hkdfW, hs, Nat.not_lt.mpr hl], Crypto.hkdf_length h _ salt ikm info len⟩
+    refine ⟨hkdf c hkdfAlg salt ikm info len, by simp [hkdfW, hs, Nat.not_lt.mpr hl],
+      Crypto.hkdf_length h _ salt ikm info len⟩
   · intro hl; simp [hkdfW, hs, hl]
 
 /-- CMAC uses the right subkey: K1 = dbl(E_K(0¹²⁸)) on a complete last block, K2 = dbl(K1) on a padded one
